@@ -7,7 +7,7 @@ Supported Rust subset (anything else makes the translator fail loudly, naming fi
   body  := { (let x[: T] = e; | assert!(..); | assert_eq!(..); | if c { ..; return e; })*  e }
   e     := int | ident | path(args) | recv.method(args) | recv.0 | e as T | &e | (e) | e op e | if c {body} else {body}
            | XxxLayout { f: e, .. }        op in  + - * / >> == != < > <= >= || &&
-  methods: max min div_ceil into as_usize as_u32 (numbers); n base2k size max_k rank rank_in rank_out dnum dsize
+  methods: max min div_ceil next_multiple_of into as_usize as_u32 (numbers); DEFAULTALIGN; n base2k size max_k rank rank_in rank_out dnum dsize
            glwe_layout gglwe_layout (infos); self.<api>(..) and Type::f(..) through the resolution table below.
 
 Every function is emitted with its source location; `self.foo(..)` calls go through the delegate chain
@@ -363,6 +363,8 @@ class P:
                     self.next()
             self.expect("}")
             return ("struct", segs[-1], fields)
+        if segs[-1] == "DEFAULTALIGN":
+            return ("const", "gen_DEFAULTALIGN")
         if len(segs) == 1:
             return ("var", segs[0])
         self.fail(f"path `{path}` used as a value")
@@ -471,6 +473,11 @@ CORE = [
     ("glwe_keyswitch_tmp_bytes", CO + "keyswitching/glwe.rs", "trait GLWEKeyswitchDefault", "glwe_keyswitch_tmp_bytes_default", MOD),
     ("glwe_external_product_internal_tmp_bytes", CO + "external_product/glwe.rs", "GLWEExternalProductInternal<BE> for Module", "glwe_external_product_internal_tmp_bytes", MOD),
     ("glwe_external_product_tmp_bytes", CO + "external_product/glwe.rs", "trait GLWEExternalProductDefault", "glwe_external_product_tmp_bytes_default", MOD),
+    ("gglwe_keyswitch_tmp_bytes", CO + "keyswitching/gglwe.rs", "trait GGLWEKeyswitchDefault", "gglwe_keyswitch_tmp_bytes_default", MOD),
+    ("gglwe_external_product_tmp_bytes", CO + "external_product/gglwe.rs", "trait GGLWEExternalProductDefault", "gglwe_external_product_tmp_bytes_default", MOD),
+    ("ggsw_external_product_tmp_bytes", CO + "external_product/ggsw.rs", "trait GGSWExternalProductDefault", "ggsw_external_product_tmp_bytes_default", MOD),
+    ("gglwe_prepare_tmp_bytes", CO + "layouts/prepared/gglwe.rs", "trait GGLWEPreparedFactory", "gglwe_prepare_tmp_bytes", MOD),
+    ("ggsw_prepare_tmp_bytes", CO + "layouts/prepared/ggsw.rs", "trait GGSWPreparedFactory", "ggsw_prepare_tmp_bytes", MOD),
     ("glwe_automorphism_tmp_bytes", CO + "automorphism/glwe_ct.rs", "trait GLWEAutomorphismDefault", "glwe_automorphism_tmp_bytes_default", MOD),
     ("glwe_trace_tmp_bytes", CO + "glwe_trace.rs", "trait GLWETraceDefault", "glwe_trace_tmp_bytes_default", MOD),
 ]
@@ -498,6 +505,7 @@ CALLS = {
     "self.glwe_keyswitch_tmp_bytes": ("glwe_keyswitch_tmp_bytes", MOD),
     "self.glwe_external_product_internal_tmp_bytes": ("glwe_external_product_internal_tmp_bytes", MOD),
     "self.glwe_automorphism_tmp_bytes": ("glwe_automorphism_tmp_bytes", MOD),
+    "self.glwe_external_product_tmp_bytes": ("glwe_external_product_tmp_bytes", MOD),
     # aliases of the reference functions inside hal_defaults (checked against the `use .. as ..` lines)
     "vec_znx_normalize_tmp_bytes": ("ref_vec_znx_normalize_tmp_bytes", FREE),
     "vec_znx_rsh_tmp_bytes": ("ref_vec_znx_rsh_tmp_bytes", FREE), "vec_znx_lsh_tmp_bytes": ("ref_vec_znx_lsh_tmp_bytes", FREE),
@@ -577,6 +585,8 @@ class Emit:
         t = e[0]
         if t == "num":
             return str(e[1])
+        if t == "const":
+            return e[1]
         if t == "var":
             if e[1] not in self.env:
                 self.fail(f"unbound identifier `{e[1]}`")
@@ -632,6 +642,8 @@ class Emit:
                 return f"(Z.{name} {r} {self.ex(args[0], ind)})"
             if name == "div_ceil" and len(args) == 1:
                 return f"(div_ceil {r} {self.ex(args[0], ind)})"
+            if name == "next_multiple_of" and len(args) == 1:
+                return f"(next_multiple_of {r} {self.ex(args[0], ind)})"
             if name in IDENT_METHODS and not args:
                 return r
             if name in INFO_METHODS and not args:
